@@ -495,6 +495,24 @@ structure CfgAcc where
   children : List Node := []
   st : Names
 
+/-- `if source is None: source_types = …; source = self.link_name(InPort(child, 0))` [F23] -/
+def cfgEntry (cs : Classes) (a : CfgAcc) (c : Nat) (inputs : List Ty) : Except Err CfgAcc :=
+  match a.source with
+  | some _ => .ok a
+  | none =>
+    match rowToModel inputs with
+    | .error e => .error e
+    | .ok ts =>
+      let r := linkName cs a.st (inPort c 0)                          -- the entry block's control input
+      .ok { a with sourceTypes := .list ts, source := some r.1, st := r.2 }
+
+/-- `child_node = self.export_node(child); if child_node is not None: children.append(child_node)` -/
+def cfgChild (rec : Rec) (a : CfgAcc) (c : Nat) : Except Err CfgAcc :=
+  match rec a.st c with
+  | .error e => .error e
+  | .ok (none, st1) => .ok { a with st := st1 }
+  | .ok (some nd, st1) => .ok { a with children := a.children ++ [nd], st := st1 }
+
 def cfgStep (rec : Rec) (cs : Classes) (s : St) (a : CfgAcc) (c : Nat) : Except Err CfgAcc :=
   match getOp s c with
   | .error e => .error e
@@ -508,22 +526,9 @@ def cfgStep (rec : Rec) (cs : Classes) (s : St) (a : CfgAcc) (c : Nat) : Except 
         let r := linkName cs a.st (inPort c 0)                        -- [F23] the exit block's one input
         .ok { a with targetTypes := .list ts, targets := [r.1], st := r.2 }
   | .ok (.dataflowBlock inputs _ _ _) =>
-    let a1 : Except Err CfgAcc :=
-      match a.source with
-      | some _ => .ok a
-      | none =>
-        match rowToModel inputs with
-        | .error e => .error e
-        | .ok ts =>
-          let r := linkName cs a.st (inPort c 0)                      -- [F23] the entry block's control input
-          .ok { a with sourceTypes := .list ts, source := some r.1, st := r.2 }
-    match a1 with
+    match cfgEntry cs a c inputs with
     | .error e => .error e
-    | .ok a1 =>
-      match rec a1.st c with
-      | .error e => .error e
-      | .ok (none, st1) => .ok { a1 with st := st1 }
-      | .ok (some nd, st1) => .ok { a1 with children := a1.children ++ [nd], st := st1 }
+    | .ok a1 => cfgChild rec a1 c
   | .ok _ => .error .valueError                                        -- "Unexpected operation in CFG"
 
 def cfgLoop (rec : Rec) (cs : Classes) (s : St) : CfgAcc → List Nat → Except Err CfgAcc
